@@ -3,7 +3,8 @@
 use std::collections::HashSet;
 
 use paseto_core::PasetoError;
-use paseto_core::tokens::UnsealedToken;
+use paseto_core::tokens::{SealedToken, UnsealedToken};
+use paseto_core::validation::NoValidation;
 use paseto_core::version::{Local, Public};
 use serde::{Deserialize, Serialize};
 use serde_json::{Value, json};
@@ -26,9 +27,12 @@ pub enum Op {
     Pke,
     RandomLocal,
     RandomSecret,
+    /// a token is decrypted and the UnsealedToken it returns is encrypted again (token refresh, key
+    /// rotation): the new token needs a fresh nonce like any other
+    ReEncrypt,
 }
 
-const OPS: [Op; 9] = [Op::Encrypt, Op::Sign, Op::Pie, Op::Pbkw, Op::PieSecret, Op::PbkwSecret, Op::Pke, Op::RandomLocal, Op::RandomSecret];
+const OPS: [Op; 10] = [Op::Encrypt, Op::Sign, Op::Pie, Op::Pbkw, Op::PieSecret, Op::PbkwSecret, Op::Pke, Op::RandomLocal, Op::RandomSecret, Op::ReEncrypt];
 
 struct Fixture<B: Backend> {
     lk: LocalKeyOf<B>,
@@ -38,12 +42,20 @@ struct Fixture<B: Backend> {
     pke_pk: PkePublicOf<B>,
     pke_pk_raw: Vec<u8>,
     msg: Vec<u8>,
+    /// a local token sealed when the fixture was made (with a footer), for the re-encryption histories
+    sealed_local: String,
 }
 
 fn fixture<B: Backend>(seed: u64) -> Fixture<B> {
     let ks = KeySeed::from_u64(seed);
     let (_, pke_pk, _, pke_pk_raw) = pke_pair::<B>(&ks);
+    let sealed_local = UnsealedToken::<V<B>, Local, Raw>::new(Raw(b"{\"data\":\"identical message for every operation\"}".to_vec()))
+        .with_footer(b"kid-1".to_vec())
+        .seal(&local_key::<B>(&ks), &[])
+        .map(|t| t.to_string())
+        .unwrap_or_default();
     Fixture {
+        sealed_local,
         lk: local_key::<B>(&ks),
         lk_raw: local_key_bytes(&ks),
         sk: secret_key::<B>(&ks),
@@ -71,6 +83,18 @@ fn run_op<B: Backend>(fx: &Fixture<B>, op: Op) -> Result<Out, PasetoError> {
         Op::Encrypt => {
             let t = UnsealedToken::<V<B>, Local, Raw>::new(Raw(fx.msg.clone())).seal(&fx.lk, &[])?.to_string();
             let b = body(&t);
+            let n = ver.local_nonce_len().min(b.len());
+            Ok(Out { fresh: vec![("nonce", b[..n].to_vec())], text: t })
+        }
+        Op::ReEncrypt => {
+            let parsed: SealedToken<V<B>, Local, Raw, Vec<u8>> = fx.sealed_local.parse()?;
+            let un = parsed.unseal(&fx.lk, &[], &NoValidation::dangerous_no_validation())?;
+            let t = un.seal(&fx.lk, &[])?.to_string();
+            let text = t.clone();
+            // the payload section is the second-to-last one here (the token has a footer)
+            let mut it = text.rsplitn(3, '.');
+            let _footer = it.next();
+            let b = b64_decode(it.next().unwrap_or("")).unwrap_or_default();
             let n = ver.local_nonce_len().min(b.len());
             Ok(Out { fresh: vec![("nonce", b[..n].to_vec())], text: t })
         }
@@ -161,6 +185,13 @@ fn field_from_draws<B: Backend>(fx: &Fixture<B>, op: Op, log: &[Draw], out: &Out
                 return Err(format!("{} draws for one encryption", ok.len()));
             }
         }
+        Op::ReEncrypt => {
+            need(1, ver.local_draw_len())?;
+            let want = model::local_nonce(ver, &ok[0].bytes, &fx.msg);
+            if field("nonce") != want {
+                return Err(format!("the nonce {} of the re-encrypted token is not the prescribed function of the bytes drawn for it {}", hx(&field("nonce")), hx(&ok[0].bytes)));
+            }
+        }
         Op::Pie | Op::PieSecret => {
             need(1, 32)?;
             if field("nonce") != ok[0].bytes {
@@ -241,6 +272,7 @@ fn history<B: Backend>(acc: &mut Acc, op: Op) {
         Op::PieSecret if v1 => acc.tier.pick(2_000, 20_000),
         Op::PbkwSecret if v1 => acc.tier.pick(1_000, 10_000),
         Op::Encrypt | Op::Pie | Op::PieSecret | Op::RandomLocal => acc.tier.pick(20_000, 100_000),
+        Op::ReEncrypt => acc.tier.pick(5_000, 50_000),
         Op::Pbkw | Op::PbkwSecret => acc.tier.pick(5_000, 100_000),
         Op::Sign if v1 => acc.tier.pick(300, 3_000),
         Op::Sign => acc.tier.pick(3_000, 100_000),
@@ -257,6 +289,14 @@ fn history<B: Backend>(acc: &mut Acc, op: Op) {
     let mut varied: std::collections::HashMap<&'static str, (Vec<u8>, Vec<u8>)> = std::collections::HashMap::new();
     let mut texts: HashSet<u64> = HashSet::new();
     let intercept = B::GETRANDOM && !(op == Op::Sign) && !(op == Op::RandomSecret && v1);
+    if op == Op::ReEncrypt {
+        // the nonce of the token that is being re-encrypted counts as used
+        let mut it = fx.sealed_local.rsplitn(3, '.');
+        let _ = it.next();
+        let b = b64_decode(it.next().unwrap_or("")).unwrap_or_default();
+        let k = B::VER.local_nonce_len().min(b.len());
+        seen.entry("nonce").or_default().insert(b[..k].to_vec());
+    }
     for i in 0..n {
         rng::begin_op();
         let r = run_op::<B>(&fx, op);
@@ -502,7 +542,7 @@ pub fn def() -> PropertyDef {
     PropertyDef {
         id: "C16",
         level: "fault_enumeration",
-        rule: "(1) histories: per back end and operation kind {encrypt, sign (randomised signers), PIE wrap and password wrap (of a local and of a secret key), key seal, LocalKey::random, SecretKey::random} N consecutive operations with IDENTICAL keys and messages (N = 20000 / 5000 / 100..3000 for RSA- and ECDH-bound kinds in quick, up to 10^5 thorough); the nonce / salt / ephemeral key / signature / key of every output goes into a set: no repeats, no identical outputs; on getrandom back ends the draw log must show the draw(s) of the specified width and the output field must be the prescribed function of the drawn bytes (v3/v4 nonce = draw, v1/v2 nonce = MAC(draw, m), PBKW salt/nonce = draws, epk = [draw]G, c = r^e, generated key = draw); every byte position of every nonce / salt / random key must change at least once over a history (a constant byte means that part is not drawn from the RNG); (2) fault sequences on getrandom back ends: for every operation kind and EVERY draw index it makes, the draw fails after filling 0, half or all of the buffer (including the extra draws of rejection-sampling retry paths, reached by scripting an all-ones / all-zero first candidate): the result must be Err (no panic, no output) and the next operation must succeed. Non-trivial iff the operation has a predecessor with identical inputs / an injected failure at index >= 1 or with a partially filled buffer",
+        rule: "(1) histories: per back end and operation kind {encrypt, sign (randomised signers), PIE wrap and password wrap (of a local and of a secret key), key seal, LocalKey::random, SecretKey::random, decrypt-then-encrypt-again of the returned UnsealedToken} N consecutive operations with IDENTICAL keys and messages (N = 20000 / 5000 / 100..3000 for RSA- and ECDH-bound kinds in quick, up to 10^5 thorough); the nonce / salt / ephemeral key / signature / key of every output goes into a set: no repeats, no identical outputs; on getrandom back ends the draw log must show the draw(s) of the specified width and the output field must be the prescribed function of the drawn bytes (v3/v4 nonce = draw, v1/v2 nonce = MAC(draw, m), PBKW salt/nonce = draws, epk = [draw]G, c = r^e, generated key = draw); every byte position of every nonce / salt / random key must change at least once over a history (a constant byte means that part is not drawn from the RNG); (2) fault sequences on getrandom back ends: for every operation kind and EVERY draw index it makes, the draw fails after filling 0, half or all of the buffer (including the extra draws of rejection-sampling retry paths, reached by scripting an all-ones / all-zero first candidate): the result must be Err (no panic, no output) and the next operation must succeed. Non-trivial iff the operation has a predecessor with identical inputs / an injected failure at index >= 1 or with a partially filled buffer",
         assumptions: vec![
             "aws-lc (RAND_bytes), libsodium (randombytes) and rsa::OsRng (getrandom 0.2) cannot be failed in-process; for them only the history part applies",
             "getrandom back ends draw from a seeded deterministic stream during histories (distinct per draw), so a repeat can only come from the library",
